@@ -50,9 +50,12 @@ namespace fastscapelib
             {
             }
 
+            // ties on elevation are broken on the node index so that the flooding
+            // order depends on the queue content only (not on insertion order)
             bool operator>(const pflood_node<FG, T>& other) const
             {
-                return m_elevation > other.m_elevation;
+                return m_elevation > other.m_elevation
+                       || (m_elevation == other.m_elevation && m_idx > other.m_idx);
             }
         };
 
